@@ -189,7 +189,13 @@ func oracleC18(f *sessionFam, w *World, res *Result) []Violation {
 			cbSeq[e.S] = append(cbSeq[e.S], e.Seq)
 			cbOrder = append(cbOrder, e.S)
 			if e.Seq > closeSeq {
-				l.add("no-callback-after-close", "", fmt.Sprintf("%s [%s]: send callback of %s ran at #%d, after the close event #%d", a, ctx, e.S, e.Seq, closeSeq))
+				// in the very instant of the close the writer goroutine of the last batch had picked up its listeners
+				// before the close detached them (recorded finding); at a later instant nothing of the kind can be under way
+				when := "same-instant-as-close"
+				if ce := w.evs(a, "close"); len(ce) > 0 && e.T > ce[0].T {
+					when = "later-than-close"
+				}
+				l.add("no-callback-after-close", when, fmt.Sprintf("%s [%s]: send callback of %s ran at #%d, after the close event #%d", a, ctx, e.S, e.Seq, closeSeq))
 			}
 		}
 		var withCB []SentMsg
